@@ -267,8 +267,8 @@ prop("C08",
      "blocking acquisition after the release.",
      "Oracles: returned handle is non-null iff the calling thread holds the lock (lock model) when the call "
      "returns, and refers to the wrapped object; against a handle held for the whole attempt the untimed forms "
-     "return null without ever blocking and the timed forms return null only after their time-out fired (a "
-     "blocking implementation deadlocks the program: reported); reader-vs-reader succeeds on shared-capable "
+     "return null without ever blocking and the timed forms return null (an implementation that blocks without "
+     "time-out deadlocks the program: reported); reader-vs-reader succeeds on shared-capable "
      "mutexes; the lock stays held while a non-null handle lives; after unlock() the handle is null and the lock "
      "free; move-assignment releases the target's previous lock; releasing twice / never (lock model: bad unlock, "
      "mutex still locked at the end, third thread blocked = deadlock); locking disabled: zero mutex operations, "
